@@ -221,6 +221,10 @@ pub fn gen_case(rng: &mut Rng, c02: bool, thorough: bool) -> CrashCase {
       match op {
         Op::Add { ver, h, .. } => {
           *ver += ver_base;
+          // (no giant documents here: every crash image would carry them)
+          if is_big(*ver) && *ver % 97 == 0 {
+            *ver += 1;
+          }
           *h += s * 100;
         }
         Op::NewWriter { h } | Op::Delete { h, .. } | Op::Commit { h } | Op::Rollback { h } | Op::DropWriter { h } | Op::Savepoint { h } | Op::RollbackTo { h } => *h += s * 100,
